@@ -1,0 +1,110 @@
+//go:build verif
+
+// Contracts for the deductive checks in /verif (comment-only; not part of normal builds).
+// Syntax: see /verif/DESIGN.md section 4.
+
+package orda
+
+// ---------------------------------------------------------------------------------------
+// Counter
+// ---------------------------------------------------------------------------------------
+
+//@ func (*counterSnapshot).increaseCommon
+//@   mode bv
+//@   props C02 C03 C01
+//@   ensures[sum-mod-2^32] its.Value == old(its.Value) + delta
+//@   ensures[returns-new]  result == its.Value
+//@   ensures[others]       forall p *counterSnapshot :: p != its ==> p.Value == old(p.Value)
+//@   modifies counterSnapshot.Value
+
+// ---------------------------------------------------------------------------------------
+// Map (LWW per key)
+// ---------------------------------------------------------------------------------------
+
+// dynamic types of the linked structures (checked at every store in functions under contract)
+//@ typeinv orderedNode.timedType : *timedNode | *jsonElement | *jsonObject | *jsonArray
+
+// every entry of a mapSnapshot is a *timedNode carrying a valid timestamp
+//@ pred tnode(t timedType) = t.(*timedNode) && validTS(t.(*timedNode).T)
+//@ pred mapWF(m *mapSnapshot) = m.Map != nil && m.BaseDatatype != nil && (forall k string :: k in m.Map ==> tnode(m.Map[k]))
+//@ pred live(m *mapSnapshot, k string) = k in m.Map && m.Map[k].(*timedNode).V != nil
+//@ pred tsOf(t timedType) = t.(*timedNode).T
+
+// $live is the ghost number of live (non-tombstone) keys; it is updated at the exit of each
+// mutator by the point-update rule of finite-set cardinality (only `key` may change its liveness,
+// which the other-keys postconditions prove).
+//@ ghost field mapSnapshot.$live int
+//@ pred mapSized(m *mapSnapshot) = m.Size == m.$live
+
+//@ func (*mapSnapshot).putCommonWithTimedType
+//@   mode math nooverflow Size counts entries of an in-memory map
+//@   props C02 C03 C01
+//@   dispatch timedType : *timedNode
+//@   requires mapWF(its) && tnode(newOne) && mapSized(its)
+//@   requires newOne.(*timedNode).V != nil
+//@   requires forall k string :: k in its.Map ==> its.Map[k] != newOne
+//@   replay-input old_present = key in its.Map
+//@   replay-input old_tomb    = its.Map[key].(*timedNode).V == nil
+//@   replay-input old_era     = its.Map[key].(*timedNode).T.Era
+//@   replay-input old_lamport = its.Map[key].(*timedNode).T.Lamport
+//@   replay-input old_cuid    = its.Map[key].(*timedNode).T.CUID
+//@   replay-input new_era     = newOne.(*timedNode).T.Era
+//@   replay-input new_lamport = newOne.(*timedNode).T.Lamport
+//@   replay-input new_cuid    = newOne.(*timedNode).T.CUID
+//@   ghost-exit its.$live := old(its.$live) + (live(its, key) ? 1 : 0) - (old(live(its, key)) ? 1 : 0)
+//@   ensures[wf]          mapWF(its)
+//@   ensures[present]     key in its.Map
+//@   ensures[lww-winner]  (its.Map[key] == newOne) == (!old(key in its.Map) || tsLess(old(tsOf(its.Map[key])), tsOf(newOne)))
+//@   ensures[lww-keep]    its.Map[key] != newOne ==> its.Map[key] == old(its.Map[key])
+//@   ensures[other-keys]  forall k string :: k != key ==> (k in its.Map) == old(k in its.Map) && its.Map[k] == old(its.Map[k])
+//@   ensures[nodes-untouched] forall t *timedNode :: t.V == old(t.V) && t.T == old(t.T)
+//@   ensures[size==live]  mapSized(its)
+//@   ensures[result-new]  n == its.Map[key]
+//@   ensures[result-old]  o == (old(key in its.Map) ? (its.Map[key] == newOne ? old(its.Map[key]) : newOne) : nil)
+//@   modifies mapSnapshot.Size, map[string]timedType, mapSnapshot.$live
+
+//@ func (*mapSnapshot).removeRemoteWithTimedType
+//@   mode math nooverflow Size counts entries of an in-memory map
+//@   props C02 C03 C01
+//@   dispatch timedType : *timedNode
+//@   requires mapWF(its) && validTS(ts) && mapSized(its)
+//@   ghost-exit its.$live := old(its.$live) + (live(its, key) ? 1 : 0) - (old(live(its, key)) ? 1 : 0)
+//@   ensures[wf]          mapWF(its)
+//@   ensures[domain]      forall k string :: (k in its.Map) == old(k in its.Map) && its.Map[k] == old(its.Map[k])
+//@   ensures[lww-remove]  old(key in its.Map) && tsLess(old(tsOf(its.Map[key])), ts) ==> its.Map[key].(*timedNode).V == nil && its.Map[key].(*timedNode).T == ts
+//@   ensures[lww-keep]    old(key in its.Map) && !tsLess(old(tsOf(its.Map[key])), ts) ==> its.Map[key].(*timedNode).V == old(its.Map[key].(*timedNode).V) && its.Map[key].(*timedNode).T == old(its.Map[key].(*timedNode).T)
+//@   ensures[other-nodes] forall t *timedNode :: t != old(its.Map[key]) ==> t.V == old(t.V) && t.T == old(t.T)
+//@   ensures[size==live]  mapSized(its)
+//@   ensures[no-target]   (result2 != nil) == !old(key in its.Map)
+//@   ensures[old-value]   result2 == nil && result0 != nil ==> result1 == old(its.Map[key].(*timedNode).V)
+//@   modifies mapSnapshot.Size, timedNode.V, timedNode.T, mapSnapshot.$live
+
+//@ func (*mapSnapshot).removeLocalWithTimedType
+//@   mode math nooverflow Size counts entries of an in-memory map
+//@   props C02 C03 C01
+//@   dispatch timedType : *timedNode
+//@   requires mapWF(its) && validTS(ts) && mapSized(its)
+//@   ghost-exit its.$live := old(its.$live) + (live(its, key) ? 1 : 0) - (old(live(its, key)) ? 1 : 0)
+//@   ensures[wf]          mapWF(its)
+//@   ensures[domain]      forall k string :: (k in its.Map) == old(k in its.Map) && its.Map[k] == old(its.Map[k])
+//@   ensures[removes-live] (result2 == nil) == (old(live(its, key)) && tsLess(old(tsOf(its.Map[key])), ts))
+//@   ensures[tombstoned]  result2 == nil ==> !live(its, key) && its.Map[key].(*timedNode).T == ts && result1 == old(its.Map[key].(*timedNode).V)
+//@   ensures[error-changes-nothing] result2 != nil ==> (forall t *timedNode :: t.V == old(t.V) && t.T == old(t.T)) && its.Size == old(its.Size)
+//@   ensures[other-nodes] forall t *timedNode :: t != old(its.Map[key]) ==> t.V == old(t.V) && t.T == old(t.T)
+//@   ensures[size==live]  mapSized(its)
+//@   modifies mapSnapshot.Size, timedNode.V, timedNode.T, mapSnapshot.$live
+
+//@ func (*mapSnapshot).get
+//@   mode math
+//@   props C03
+//@   dispatch timedType : *timedNode
+//@   requires mapWF(its)
+//@   ensures result == (live(its, key) ? its.Map[key].(*timedNode).V : nil)
+//@   modifies nothing
+
+//@ func (*mapSnapshot).size
+//@   mode math
+//@   props C03
+//@   requires mapSized(its)
+//@   ensures result == its.$live
+//@   modifies nothing
